@@ -11,7 +11,16 @@ perform_kramers_kronig_test(num_RC=n, num_F_ext_evaluations=0, log_F_ext=x, num_
               each error weighted with that term's largest contribution to the spectrum and divided by the largest
               contribution of all terms                                                               <= PAR_TOL
   bookkeeping num_RC, representation and test label are the requested ones; pseudo chi-squared ~ 0
+  log_F_ext   result.get_log_F_ext() reports the requested extension (LOGF_TOL; skipped where the limits of eq. 12 cross,
+              the accessor is only defined for ascending time constants)
   completion  the call returns (any exception is a violation, inside or outside the gate)
+
+Routes.  Every instance goes through perform_kramers_kronig_test; a fixed share (about 1/40 each, chosen from the case
+index) ALSO goes through the other public entry points that perform a fixed-extension test, with the same clauses:
+perform_exploratory_kramers_kronig_tests(num_RCs=[n-1, n, n+1]) (the result with n RC elements is picked from the list)
+and evaluate_log_F_ext(num_RCs=[n]).  Violations seen only there carry an '@exploratory' / '@evaluate' key suffix.  An
+exception raised inside the suggestion heuristics (analysis/kramers_kronig/algorithms/*) that the exploratory route
+runs on the result list is not part of this property: the route is counted as unavailable for that instance.
 
 The quantifier's "well-conditioned design matrix" is a precondition of the *instance*, decided before the library is
 called from statistics of the harness's own matrices (kk_model.gate_stats, see GATE).  Instances outside the gate are
@@ -48,8 +57,9 @@ RULE = (
     "or 2 (real/imaginary) time constants per decade with #unknowns <= 0.75 #equations, variables with sign patterns "
     "(all +, all -, alternating, random), 0..6 decades spread (in contribution or in raw parameter space), overall scale "
     "1e-4..1e4, 8% with exact zeros; cnls: parameters within a decade of its start values, random signs of R_k|C_k. "
-    "Spectrum from the harness's own model. The deciding comparison (residuals, parameters) runs on instances inside "
-    "the conditioning gate; tau/bookkeeping/completion on all. A case is non-trivial when inside the gate; distinct = "
+    "Spectrum from the harness's own model. About 1/40 of the linear instances each are additionally run through "
+    "perform_exploratory_kramers_kronig_tests(num_RCs=[n-1,n,n+1]) and evaluate_log_F_ext(num_RCs=[n]). The deciding comparison (residuals, parameters) runs on instances inside "
+    "the conditioning gate; tau/reported log_F_ext/bookkeeping/completion on all. A case is non-trivial when inside the gate; distinct = "
     "distinct (cell, N, num_RC, log_F_ext, variables) keys."
 )
 ASSUMPTIONS = [
@@ -65,6 +75,7 @@ MIN_EVALS = 1000
 RES_TOL = 1e-4        # linear variants: max |relative residual| (Re or Im part)
 PAR_TOL = 1e-4        # linear variants: contribution-weighted parameter error relative to the largest term
 TAU_TOL = 1e-10       # relative
+LOGF_TOL = 1e-6       # result.get_log_F_ext() vs requested (observed <= 1e-14)
 CNLS_RES_TOL = 1e-2
 CNLS_PAR_TOL = 1e-1
 ARTEFACT_MAX = 3e-7   # predicted effect (rel. residual) of the -inv placeholder constants above which the instance is keyed separately;
@@ -232,21 +243,54 @@ def gen_instance(rng, cell, tier, crossing=False):
 # ------------------------------------------------------------------------------------------------
 # execution + oracle
 # ------------------------------------------------------------------------------------------------
-def observe(inst):
-    """Run the real test on a concrete instance."""
-    from pyimpspec import DataSet, perform_kramers_kronig_test
+ROUTES = ("main", "exploratory", "evaluate")
 
-    f = np.array(inst["f"], dtype=float)
-    Z = np.array([complex(a, b) for a, b in inst["Z"]])
+
+class RouteResultMissing(Exception):
+    pass
+
+
+def run_route(f, Z, test, num_RC, add_c, add_l, adm, log_F_ext, route="main"):
+    """One KramersKronigResult for (num_RC, log_F_ext fixed, num_F_ext_evaluations=0) through one of the public routes:
+      main         perform_kramers_kronig_test(num_RC=n)
+      exploratory  perform_exploratory_kramers_kronig_tests(num_RCs=[n-1, n, n+1] within the legal range); the result with
+                   n RC elements is picked out of the returned list
+      evaluate     evaluate_log_F_ext(num_RCs=[n]); one evaluation at the requested extension is expected
+    """
+    from pyimpspec import DataSet, perform_kramers_kronig_test
+    from pyimpspec.analysis.kramers_kronig import evaluate_log_F_ext, perform_exploratory_kramers_kronig_tests
+
+    n = int(num_RC)
+    kw = dict(test=test, add_capacitance=bool(add_c), add_inductance=bool(add_l), admittance=bool(adm),
+              log_F_ext=float(log_F_ext), num_F_ext_evaluations=0, num_procs=1)
     with warnings.catch_warnings():
         warnings.simplefilter("ignore")
         data = DataSet(f, Z)
-        res = perform_kramers_kronig_test(
-            data, test=inst["test"], num_RC=int(inst["num_RC"]), add_capacitance=bool(inst["add_c"]),
-            add_inductance=bool(inst["add_l"]), admittance=bool(inst["adm"]), log_F_ext=float(inst["log_F_ext"]),
-            num_F_ext_evaluations=0, num_procs=1,
-        )
-    return res
+        if route == "main":
+            return perform_kramers_kronig_test(data, num_RC=n, **kw)
+        N = len(f)
+        top = min(2 * N - 5, N + 10) if test.endswith("-inv") else 2 * N - 5
+        if route == "exploratory":
+            lst = [m for m in (n - 1, n, n + 1) if 2 <= m <= top]
+            tests, _ = perform_exploratory_kramers_kronig_tests(data, num_RCs=lst, **kw)
+        elif route == "evaluate":
+            ev = evaluate_log_F_ext(data, num_RCs=[n], **kw)
+            if len(ev) != 1 or abs(float(ev[0][0]) - float(log_F_ext)) > 1e-12:
+                raise RouteResultMissing(f"evaluate_log_F_ext returned {len(ev)} evaluation(s) at log_F_ext={[float(e[0]) for e in ev][:3]}, requested one at {log_F_ext}")
+            tests = ev[0][1]
+        else:
+            raise ValueError(route)
+    hits = [t for t in tests if t.get_num_RC() == n]
+    if len(hits) != 1:
+        raise RouteResultMissing(f"{len(hits)} results with num_RC={n} among {[t.get_num_RC() for t in tests]}")
+    return hits[0]
+
+
+def observe(inst, route="main"):
+    """Run the real test on a concrete instance."""
+    f = np.array(inst["f"], dtype=float)
+    Z = np.array([complex(a, b) for a, b in inst["Z"]])
+    return run_route(f, Z, inst["test"], inst["num_RC"], inst["add_c"], inst["add_l"], inst["adm"], inst["log_F_ext"], route)
 
 
 def _gate_of(inst):
@@ -255,8 +299,10 @@ def _gate_of(inst):
     return km.gate_stats(f, tau, np.array(inst["var"], dtype=float), inst["test"], bool(inst["adm"]), bool(inst["add_c"]), bool(inst["add_l"]))
 
 
-def check_instance(inst):
-    """Oracle for one instance.  Returns dict(viol, inside, obs, stats, cell, tags)."""
+def check_instance(inst, route=None):
+    """Oracle for one instance on one route.  Returns dict(viol, inside, obs, stats, cell, tags)."""
+    route = route or inst.get("route") or "main"
+    rsfx = "" if route == "main" else "@" + route
     test, adm, add_c, add_l = inst["test"], bool(inst["adm"]), bool(inst["add_c"]), bool(inst["add_l"])
     n, x = int(inst["num_RC"]), float(inst["log_F_ext"])
     cname = cell_name(test, adm, add_c, add_l)
@@ -281,21 +327,29 @@ def check_instance(inst):
     placeholder = st["artefact"] > ARTEFACT_MAX
     known_cell = test == "cnls" and adm
     viol = []
-    replay = {"kind": "explicit", "inst": {k: v for k, v in inst.items() if k != "meta"}}
+    replay = {"kind": "explicit", "inst": dict({k: v for k, v in inst.items() if k != "meta"}, route=route)}
 
     def bad(mech, msg, key=None):
-        viol.append({"key": key or f"C07/{mech}:{test}/{rep}",
-                     "msg": f"[{cname} N={len(f)} f={f.min():.3g}..{f.max():.3g} Hz num_RC={n} log_F_ext={x:.3g}] {msg}",
+        viol.append({"key": key or f"C07/{mech}:{test}/{rep}{rsfx}",
+                     "msg": f"[{cname} N={len(f)} f={f.min():.3g}..{f.max():.3g} Hz num_RC={n} log_F_ext={x:.3g} route={route}] {msg}",
                      "witness": {"cell": cname, "gate": {k: float(v) for k, v in st.items()}, "inside_gate": bool(inside), "replay_case": replay}})
 
     out = {"viol": viol, "inside": inside, "obs": None, "stats": st, "cell": cname, "finding_cell": None, "crossed": crossed,
            "tags": tags + (["placeholder-constants"] if placeholder else [])}
     try:
-        res = observe(inst)
+        res = observe(inst, route)
+    except RouteResultMissing as e:
+        bad("route-result-missing", str(e)[:300])
+        return out
     except Exception as e:  # the library must complete on every instance, in or out of the gate
         o = monitors.exception_origin(e)
+        if route == "exploratory" and "algorithms" in o["file"].replace("\\", "/").split("/"):
+            # the exploratory route also runs the num_RC / representation *suggestion* heuristics on the list of results;
+            # a failure inside them is not part of this property (C10/C18): the route is unavailable for this instance
+            out["route_unavailable"] = f"{type(e).__name__}@{o['func']}"
+            return out
         bad("raised", f"{type(e).__name__} at {o['file']}:{o['func']}: {e}"[:400] + "\n" + monitors.tb_tail(e, 4),
-            key=f"C07/raised:{test}/{rep}:{type(e).__name__}@{o['func']}")
+            key=f"C07/raised:{test}/{rep}:{type(e).__name__}@{o['func']}{rsfx}")
         return out
 
     obs = {}
@@ -327,6 +381,8 @@ def check_instance(inst):
         obs["num_RC"] = int(res.num_RC)
         obs["adm"] = bool(res.admittance)
         obs["test"] = str(res.test)
+        if not crossed:  # the accessor reconstructs log F_ext from min/max tau; it is only defined for ascending limits
+            obs["logF"] = float(res.get_log_F_ext())
     except Exception as e:
         o = monitors.exception_origin(e)
         if o["in_tree"]:
@@ -345,6 +401,8 @@ def check_instance(inst):
         bad("topology", "fitted circuit does not consist of R, num_RC RC elements and exactly the requested C/L")
     if not obs["same_grid"]:
         bad("frequencies", "result.frequencies/impedances are not on the data set's frequencies")
+    if "logF" in obs and not (abs(obs["logF"] - x) <= LOGF_TOL):
+        bad("log-F-ext", f"result reports log_F_ext={obs['logF']:.6g}, requested {x:.6g}")
     if not (obs["tau"] <= TAU_TOL):
         bad("tau", f"time constants differ from eq. 12 (Schoenleber) / eq. 18 (Boukamp): max rel. deviation {obs['tau']:.3g}")
     if inside:
@@ -399,9 +457,15 @@ def run_case(case):
     tier = case.get("tier", "quick")
     if case["kind"] == "linear":
         # regular instances first (their random stream is unchanged), then one instance per cell with crossing tau limits
-        todo = [(c, False) for c in LIN_CELLS for _ in range(case["per_cell"])] + [(c, True) for c in LIN_CELLS for _ in range(case.get("crossing_per_cell", 1))]
+        # a fixed share is ALSO run through the alternative public routes (chosen from the case index, no random draw):
+        # case index mod 4 == 0: first regular instance of every cell -> exploratory; == 1: second one -> evaluate;
+        # == 2: the crossing instance -> evaluate
+        ci = int(case["seed"][-1])
+        todo = [(c, False, "exploratory" if (j == 0 and ci % 4 == 0) else ("evaluate" if (j == 1 and ci % 4 == 1) else None))
+                for c in LIN_CELLS for j in range(case["per_cell"])]
+        todo += [(c, True, "evaluate" if ci % 4 == 2 else None) for c in LIN_CELLS for _ in range(case.get("crossing_per_cell", 1))]
     else:
-        todo = [(tuple(c), False) for c in case["cells"]]
+        todo = [(tuple(c), False, None) for c in case["cells"]]
     viol, keys, stats, maxobs = [], [], {}, {}
     evals = 0
     sample = None
@@ -413,7 +477,7 @@ def run_case(case):
         if v is not None and np.isfinite(v):
             maxobs[name] = max(maxobs.get(name, 0.0), float(v))
 
-    for cell, crossing in todo:
+    for cell, crossing, alt in todo:
         inst = gen_instance(rng, tuple(cell), tier, crossing)
         if case["kind"] == "cnls":
             # cnls costs ~1 s per call: the precondition is applied in the generator (redraw until the harness's own
@@ -435,11 +499,16 @@ def run_case(case):
         for t in out["tags"]:
             cnt(f"regime:{t}")
         viol.extend(out["viol"])
+        if alt:
+            evals += _alt_route(inst, alt, cnt, mx, viol, keys)
         o = out["obs"]
         if o is None:
             cnt("raised")
             continue
         mx(f"tau:{tname}", o["tau"])
+        if "logF" in o:
+            cnt("log_F_ext_checked")
+            mx("logF:main", abs(o["logF"] - inst["log_F_ext"]))
         res_all = max(o["res"], o.get("res_own", 0.0))
         if out["crossed"] and out["inside"] and not out.get("finding_cell"):
             mx(f"res:crossing:{tname}", res_all)
@@ -470,6 +539,35 @@ def run_case(case):
     return {"evals": evals, "keys": keys, "viol": viol[:40], "stats": stats, "maxobs": maxobs, "sample": sample}
 
 
+def _alt_route(inst, alt, cnt, mx, viol, keys):
+    """The same oracle on an alternative public route.  Returns the number of deciding comparisons (0 or 1)."""
+    out = check_instance(inst, alt)
+    tname = f"{inst['test']}/{'Y' if inst['adm'] else 'Z'}"
+    cnt(f"route:{alt}")
+    viol.extend(out["viol"])
+    if out.get("route_unavailable"):
+        cnt(f"route:{alt}:unavailable:{out['route_unavailable']}")
+        return 0
+    o = out["obs"]
+    if o is None:
+        cnt(f"route:{alt}:no-result")
+        return 0
+    mx(f"tau:@{alt}", o["tau"])
+    if "logF" in o:
+        cnt(f"route:{alt}:log_F_ext_checked")
+        mx(f"logF:@{alt}", abs(o["logF"] - inst["log_F_ext"]))
+        if inst["log_F_ext"] != 0.0:
+            cnt(f"route:{alt}:nonzero_log_F_ext")
+    if not out["inside"]:
+        return 0
+    cnt(f"route:{alt}:inside_gate")
+    keys.append((alt, out["cell"], len(inst["f"]), inst["num_RC"], inst["log_F_ext"], tuple(inst["var"])))
+    if not out.get("finding_cell"):
+        mx(f"res:@{alt}:{tname}", max(o["res"], o.get("res_own", 0.0)))
+        mx(f"par:@{alt}:{tname}", o.get("par"))
+    return 1
+
+
 def finalize(agg):
     inc = []
     st = agg["stats"]
@@ -484,12 +582,16 @@ def finalize(agg):
                 inc.append(f"{t}/{rep}: only {st.get(f'crossing_tau_limits:{t}/{rep}', 0)} instances with crossing time-constant limits (need 20)")
     if st.get("crossing_tau_limits:inside_gate", 0) < 20:
         inc.append(f"only {st.get('crossing_tau_limits:inside_gate', 0)} crossing-limit instances inside the conditioning gate (need 20)")
+    for alt in ROUTES[1:]:
+        if st.get(f"route:{alt}:inside_gate", 0) < 100 or st.get(f"route:{alt}:nonzero_log_F_ext", 0) < 100:
+            inc.append(f"route {alt}: only {st.get(f'route:{alt}:inside_gate', 0)} instances inside the gate / "
+                       f"{st.get(f'route:{alt}:nonzero_log_F_ext', 0)} with log_F_ext != 0 and the accessor checked (need 100 each)")
     for cell in CNLS_CELLS:
         cn = cell_name(*cell)
         if st.get(f"inside:{cn}", 0) < 3:
             inc.append(f"cell {cn}: only {st.get(f'inside:{cn}', 0)} cnls instances inside the gate (need 3)")
     info = {"inside_gate": st.get("inside_gate", 0), "outside_gate": st.get("outside_gate", 0),
-            "tolerances": {"RES_TOL": RES_TOL, "PAR_TOL": PAR_TOL, "TAU_TOL": TAU_TOL, "CNLS_RES_TOL": CNLS_RES_TOL,
+            "tolerances": {"RES_TOL": RES_TOL, "PAR_TOL": PAR_TOL, "TAU_TOL": TAU_TOL, "LOGF_TOL": LOGF_TOL, "CNLS_RES_TOL": CNLS_RES_TOL,
                            "CNLS_PAR_TOL": CNLS_PAR_TOL, "ARTEFACT_MAX": ARTEFACT_MAX},
             "gate": GATE}
     return {"viol": [], "inconclusive": inc, "info": info}
